@@ -45,7 +45,8 @@ def scenarios(ctx):
             x = rng.random()
             if x < 0.15:
                 steps.append({"op": "extract", "variable": "request.host", "kind": "host",
-                              "host": rng.choice(["example.com", "example.com:8443", "[::1]:80", "10.0.0.1", "a.b.c:1", "UPPER.example.com"])})
+                              "host": rng.choice(["example.com", "example.com:8443", "[::1]:80", "10.0.0.1", "a.b.c:1", "UPPER.example.com",
+                                                   "", "", " ", "localhost", "xn--bcher-kva.example", "a" * 300 + ".example", "h:0", "-", "*"])})
             elif x < 0.3:
                 name = rng.choice(["X-Api-Key", "Authorization", "x-lower", "X-Tenant", "Host", "host", "X-Forwarded-For", "Content-Length",
                                    "X-Real-IP", "Cookie", "User-Agent"])
